@@ -295,3 +295,53 @@ impl<T: Eq> PartialEq for VecSet<T> {
 
 /// re-export of the wrappers living in private modules
 pub use crate::match_tree::verif_hooks as match_tree;
+
+/// FIFO stand-in for `std::collections::VecDeque` with the API subset `traversal::Level`
+/// uses (`new`, `push_back`, `pop_front`, `extend`): a growing `Vec` plus a head index, so no
+/// ring-buffer index arithmetic. Queue semantics are all `Level` relies on.
+#[derive(Clone, Debug)]
+pub struct VecQueue<T> {
+  items: Vec<Option<T>>,
+  head: usize,
+}
+
+impl<T> Default for VecQueue<T> {
+  fn default() -> Self {
+    Self::new()
+  }
+}
+
+impl<T> VecQueue<T> {
+  pub fn new() -> Self {
+    Self {
+      items: Vec::new(),
+      head: 0,
+    }
+  }
+  pub fn push_back(&mut self, t: T) {
+    self.items.push(Some(t));
+  }
+  pub fn pop_front(&mut self) -> Option<T> {
+    if self.head < self.items.len() {
+      let r = self.items[self.head].take();
+      self.head += 1;
+      r
+    } else {
+      None
+    }
+  }
+  pub fn len(&self) -> usize {
+    self.items.len() - self.head
+  }
+  pub fn is_empty(&self) -> bool {
+    self.len() == 0
+  }
+}
+
+impl<T> Extend<T> for VecQueue<T> {
+  fn extend<I: IntoIterator<Item = T>>(&mut self, iter: I) {
+    for t in iter {
+      self.push_back(t);
+    }
+  }
+}
